@@ -273,3 +273,188 @@ def c05_target(X, template, construct="env", mode="exec"):
 
 
 ORACLES.update({"c05": c05, "c05_target": c05_target})
+
+
+# ------------------------------------------------------------------ C06
+import keyword as _kw
+
+FORMS = {"$(": (")", "subproc_captured"), "$[": ("]", "subproc_uncaptured"), "!(": (")", "subproc_captured_object"),
+         "![": ("]", "subproc_captured_hiddenobject")}
+_OPENERS = {"(": ")", "[": "]", "{": "}"}
+WS = " \t\n"
+
+
+def split_words(body):
+    """[(start, end, text)] of whitespace-separated words; quotes and brackets protect whitespace. None = outside the model's domain"""
+    words = []
+    i, n = 0, len(body)
+    while i < n:
+        if body[i] in WS:
+            i += 1
+            continue
+        j = i
+        stack = []
+        while j < n and (stack or body[j] not in WS):
+            c = body[j]
+            if c in "'\"":
+                q = c
+                k = j + 1
+                while k < n and body[k] != q:
+                    if body[k] == "\\" or body[k] == "\n":
+                        return None
+                    k += 1
+                if k >= n:
+                    return None
+                j = k + 1
+                continue
+            if c in _OPENERS:
+                lead = body[max(i, j - 2):j]
+                if not ((c == "(" and (lead.endswith(("$", "!", "@")))) or (c == "[" and lead.endswith(("$", "!")))) and not stack:
+                    return None   # bare parenthesised / bracketed groups are outside the property's domain
+                if c == "{":
+                    return None
+                stack.append(_OPENERS[c])
+            elif c in ")]}":
+                if not stack or stack[-1] != c:
+                    return None
+                stack.pop()
+            elif c in "#`\\!?" :
+                if not (c == "!" and j + 1 < n and body[j + 1] in "(["):
+                    return None
+            elif c == "$" and not (j + 1 < n and (body[j + 1].isidentifier() or body[j + 1] in "([")):
+                return None   # a dangling '$' is not part of the alphabet
+            if c == "@" and body[j:j + 2] == "@(":
+                # @(expr): the Python expression must itself be valid
+                d, k2 = 0, j + 1
+                while k2 < n:
+                    if body[k2] in "([{":
+                        d += 1
+                    elif body[k2] in ")]}":
+                        d -= 1
+                        if d == 0:
+                            break
+                    k2 += 1
+                if k2 >= n or O.cpy_parse(body[j + 2:k2].strip() or "(", "eval")[0] != "ok":
+                    return None
+            j += 1
+        if stack:
+            return None
+        words.append((i, j, body[i:j]))
+        i = j
+    return words
+
+
+def _single_group(w, open_len):
+    """w starts with an opener of open_len chars whose matching closer is w's last character"""
+    depth = 0
+    i = open_len - 1
+    q = None
+    while i < len(w):
+        c = w[i]
+        if q:
+            if c == q:
+                q = None
+        elif c in "'\"":
+            q = c
+        elif c in "([{":
+            depth += 1
+        elif c in ")]}":
+            depth -= 1
+            if depth == 0:
+                return i == len(w) - 1
+        i += 1
+    return False
+
+
+def _is_env_lookup(n, name=None):
+    ok = (isinstance(n, ast.Subscript) and isinstance(n.value, ast.Attribute) and n.value.attr == "env"
+          and isinstance(n.value.value, ast.Name) and n.value.value.id == "__xonsh__" and isinstance(n.slice, ast.Constant))
+    return ok and (name is None or n.slice.value == name)
+
+
+def _call_name(n):
+    if isinstance(n, ast.Call) and isinstance(n.func, ast.Attribute) and isinstance(n.func.value, ast.Name) and n.func.value.id == "__xonsh__":
+        return n.func.attr
+    return None
+
+
+def check_args(X, args, body, base_col, line, why):
+    """compare the argument nodes of one subprocess call with the word model of its body text; appends problems to `why`"""
+    words = split_words(body)
+    if words is None:
+        return False
+    if len(args) != len(words):
+        why.append(f"{len(args)} arguments for {len(words)} words {[w for _, _, w in words]}")
+        return True
+    for a, (s, e, w) in zip(args, words):
+        if "\n" in body[:e]:
+            span_ok = True   # columns after a newline are not modelled
+        else:
+            span_ok = (a.lineno, a.col_offset, a.end_lineno, a.end_col_offset) == (line, base_col + s, line, base_col + e)
+        if not span_ok:
+            why.append(f"word {w!r}: span {(a.lineno, a.col_offset, a.end_lineno, a.end_col_offset)} expected cols {base_col + s}..{base_col + e}")
+            continue
+        m = re.fullmatch(r"\$([A-Za-z_]\w*)", w)
+        if m:
+            if not _is_env_lookup(a, m.group(1)):
+                why.append(f"word {w!r}: expected environment lookup, got {type(a).__name__}")
+            continue
+        if w.startswith("@(") and _single_group(w, 2) and w.count("@(") == 1:
+            inner = w[2:-1]
+            ok = isinstance(a, ast.Starred) and _call_name(a.value) == "list_of_strs_or_callables" and len(a.value.args) == 1
+            if ok:
+                k, t = O.run_parse(X, inner.strip() + "\n", "eval")
+                if k == "ok" and ast.dump(t.body) != ast.dump(a.value.args[0]):
+                    ok = False
+            if not ok:
+                why.append(f"word {w!r}: expected *list_of_strs_or_callables({inner})")
+            continue
+        if w.startswith("@$(") and _single_group(w, 3):
+            ok = isinstance(a, ast.Starred) and _call_name(a.value) == "subproc_captured_inject"
+            if not ok:
+                why.append(f"word {w!r}: expected *subproc_captured_inject(...)")
+            else:
+                check_args(X, a.value.args, w[3:-1], base_col + s + 3, line, why)
+            continue
+        nested = next((f for f in FORMS if w.startswith(f) and _single_group(w, 2)), None)
+        if nested:
+            if _call_name(a) != FORMS[nested][1]:
+                why.append(f"word {w!r}: expected nested {FORMS[nested][1]}")
+            else:
+                check_args(X, a.args, w[2:-1], base_col + s + 2, line, why)
+            continue
+        if "$" in w or "@(" in w or "@$(" in w or any(f in w for f in FORMS) or "{" in w or "(" in w or "[" in w:
+            continue   # glued mixed word: only count and span are modelled
+        if not (isinstance(a, ast.Constant) and a.value == w):
+            why.append(f"word {w!r}: expected Constant({w!r}), got {ast.dump(a)[:80]}")
+    return True
+
+
+def c06(X, form, body):
+    """form in FORMS, body = command text between the brackets"""
+    closer, method = FORMS[form]
+    src = form + body + closer + "\n"
+    if split_words(body) is None or not split_words(body):
+        return None
+    why = []
+    k, t = O.run_parse(X, src, "exec")
+    words = split_words(body)
+    for part in re.findall(r"[^\W\d]\w*", re.sub(r"'[^']*'|\"[^\"]*\"", "", body)):
+        if _kw.iskeyword(part) or part in ("True", "False", "None"):
+            return None   # reserved words are outside the property's alphabet
+    if k != "ok":
+        return {"kind": "subprocess-rejected", "observed": [k, O.exc_sig(t) if isinstance(t, BaseException) else None], "expected": f"{method}({[w for _, _, w in words]})",
+                "source": src}
+    try:
+        call = t.body[0].value
+    except (AttributeError, IndexError):
+        return {"kind": "not-a-call", "observed": ast.dump(t)[:200], "expected": method, "source": src}
+    if _call_name(call) != method:
+        return {"kind": "wrong-runtime-method", "observed": _call_name(call), "expected": method, "source": src}
+    check_args(X, call.args, body, len(form), 1, why)
+    if why:
+        return {"kind": "arguments-differ-from-word-model", "observed": why[:4], "expected": [w for _, _, w in words], "source": src}
+    return None
+
+
+ORACLES.update({"c06": c06})
